@@ -2100,7 +2100,7 @@ class RecordTensor(ShapedTensor):
             shift = ein.rearrange(
                 torch.where(torch.abs(dt * shiftr - time) <= tolerance, shiftr, shift),
                 "... t -> t ...",
-            )
+            ).clamp(min=0, max=recordsz - 1)
 
             # update offset with shift
             offset = offset + shift
@@ -2146,8 +2146,8 @@ class RecordTensor(ShapedTensor):
                     f"[{-tolerance}, {dt * (recordsz - 1) + tolerance}]"
                 )
 
-            # compute continuous shift
-            shift = time / dt
+            # compute continuous shift (validated times may exceed the range by rounding)
+            shift = min(max(time / dt, 0), recordsz - 1)
 
             # directly read when within tolerance
             if abs(dt * round(shift) - time) <= tolerance:
@@ -2272,7 +2272,7 @@ class RecordTensor(ShapedTensor):
             shiftr = shift.round()
             shift = torch.where(
                 torch.abs(dt * shiftr - time) <= tolerance, shiftr, shift
-            )
+            ).clamp(min=0, max=recordsz - 1)
 
             # unsqueeze first dimension
             obs = obs.unsqueeze(0)
@@ -2335,8 +2335,8 @@ class RecordTensor(ShapedTensor):
                     f"[{-tolerance}, {dt * (recordsz - 1) + tolerance}]"
                 )
 
-            # compute continuous shift
-            shift = time / dt
+            # compute continuous shift (validated times may exceed the range by rounding)
+            shift = min(max(time / dt, 0), recordsz - 1)
 
             # directly write when within tolerance
             if abs(dt * round(shift) - time) <= tolerance:
